@@ -10,7 +10,7 @@ sys.path.insert(0, HERE)
 sys.path.insert(0, os.environ.get('VERIF_REPO', '/repo'))
 
 from vlib.engine import CaseViolation, jsonable  # noqa: E402
-from vlib.tagoracle import LibDriver, HOSTILE_MODULE, ORDINARY, gen_names, runtime_hostile  # noqa: E402
+from vlib.tagoracle import LibDriver, HOSTILE_MODULE, ORDINARY, gen_names, runtime_hostile, own_attribute_names  # noqa: E402
 
 
 class Stub:
@@ -35,7 +35,7 @@ def main():
     tried, violation = [], None
     try:
         glob.full_check(rng)
-        for n in gen_names(rng, rng.randint(10, 30), HOSTILE_MODULE, runtime_hostile(tags)):
+        for n in gen_names(rng, rng.randint(10, 30), HOSTILE_MODULE, runtime_hostile(tags), own_attribute_names(tags)):
             d = glob if rng.random() < 0.7 else local
             d.add(n)
             tried.append([d.label, n if len(n) < 40 else n[:20] + '...'])
